@@ -264,7 +264,7 @@ fn rans_coq(cx: &mut Cx, n: u64, data: &[u8], freq: &[u32; 256], table: &[u32], 
 pub fn coq_push(cx: &mut Cx, op: u32, a: &[u128], b: &[u128], expect: &[u128], cj: &Value) {
     // one budget per kind of case (and per FSE configuration), so that no family crowds out the others
     let key = format!("{}:{}", op, cj["preset"].as_str().unwrap_or(""));
-    let limit = match op { 100 => cx.coq_limit / 20, 110 => cx.coq_limit / 380, 111 | 112 => cx.coq_limit / 63, _ => cx.coq_limit / 7 };
+    let limit = match op { 100 => cx.coq_limit / 20, 110 => cx.coq_limit / 380, 111 | 112 => cx.coq_limit / 40, _ => cx.coq_limit / 9 };
     let used = cx.coq_used.entry(key).or_insert(0);
     if *used >= limit.max(1) { return; }
     *used += 1;
@@ -378,7 +378,7 @@ fn fse_coq(cx: &mut Cx, cfg: &FseConfig, data: &[u8], bytes: &[u8], cj: &Value) 
     // op 110: a = table, expect = the 5 fields of every encoding symbol          (init_enc_symbol)
     // op 111: a = par :: block_size :: table, b = raw counts ++ payload, expect = 1 :: compressed bytes
     // op 112: a = table, b = compressed bytes, expect = 1 :: payload             (model decoder on the real stream)
-    if data.is_empty() || data.len() > 2100 { return; }
+    if data.len() < 99 || data.len() > 4300 { return; }
     let raw = counts(data);
     let table = match guarded(|| FseTable::new(&raw, cfg)) { Ok(Ok(t)) => t, _ => return };
     let t: Vec<u128> = (0..256).map(|i| table.dec_symbols[i].freq as u128).collect();
@@ -678,11 +678,11 @@ pub fn run_cells(sum: &mut Summary, shards: &mut CoqShards, rng: &mut Rng, args:
         lens.sort(); lens.dedup();
         for len in lens {
             let reps = if len > 5000 { if th { 5 } else { 2 } } else if th { 12 } else { 4 };
-            for _ in 0..reps {
+            for rep in 0..reps {
                 k += 1;
                 let kind = k % KINDS;
                 let d = payload(r, len, kind);
-                fse_case(&mut cx, p, 0, &d, None, None, kind_name(kind), len <= 2000);
+                fse_case(&mut cx, p, 0, &d, None, None, kind_name(kind), rep == 0);
                 if k % 5 == 0 { fse_case(&mut cx, p, 1, &d, None, None, kind_name(kind), false); }
             }
         }
